@@ -939,16 +939,19 @@ static void set_refill(int units)
     filebuffer64::HBUF_SZ = (u32_t)units;
   }
 }
-bytes hash_filebuf(int alg, const bytes &file, size_t pos, int refill_units, const bytes *prefix64, const bytes *decoy, int how)
+// how the stream reaches the code under test: 0 = seekable, positioned at `pos` with fseek; 1 = a pipe that starts at
+// `pos` (nothing read from it yet); 2 = read to its end by the caller (EOF indicator set); 3 = a pipe that carries the
+// whole file, of which the caller has read the first `pos` bytes through stdio (a header) - stdio holds read-ahead
+static FILE *open_positioned(MemFile &in, const bytes &file, size_t pos, int how)
 {
-  set_refill(refill_units);
-  MemFile in;
   in.d = file;
   if (how == 1)
   {
     in.d.assign(file.begin() + (long)std::min(pos, file.size()), file.end());
     in.noseek = true;
   }
+  else if (how == 3)
+    in.noseek = true;
   FILE *fi = mf_open(&in, "rb");
   if (how == 0)
     fseek(fi, (long)pos, SEEK_SET);
@@ -958,6 +961,19 @@ bytes hash_filebuf(int alg, const bytes &file, size_t pos, int refill_units, con
     while (fread(sink, 1, sizeof sink, fi) == sizeof sink)
       ;
   }
+  else if (how == 3)
+  {
+    std::vector<char> hdr(pos ? pos : 1);
+    size_t got = fread(hdr.data(), 1, pos, fi);
+    (void)got;
+  }
+  return fi;
+}
+bytes hash_filebuf(int alg, const bytes &file, size_t pos, int refill_units, const bytes *prefix64, const bytes *decoy, int how)
+{
+  set_refill(refill_units);
+  MemFile in;
+  FILE *fi = open_positioned(in, file, pos, how);
   Hashmaster *h = hasher(alg);
   bytes out(hash_len(alg));
   u8_t pre[64];
@@ -1049,13 +1065,11 @@ bytes hash_string_synth(int alg, uint64_t len, uint32_t pat)
   return out;
 }
 
-bytes hmac_get(int hmode, const bytes &key, const bytes &file, size_t pos, int refill_units)
+bytes hmac_get(int hmode, const bytes &key, const bytes &file, size_t pos, int refill_units, int how)
 {
   set_refill(refill_units);
   MemFile in;
-  in.d = file;
-  FILE *fi = mf_open(&in, "rb");
-  fseek(fi, (long)pos, SEEK_SET);
+  FILE *fi = open_positioned(in, file, pos, how);
   bytes k = key;
   k.resize(16);
   hmac h;
@@ -1065,13 +1079,11 @@ bytes hmac_get(int hmode, const bytes &key, const bytes &file, size_t pos, int r
   fclose(fi);
   return out;
 }
-bool hmac_cmp(int hmode, const bytes &key, const bytes &file, size_t pos, const bytes &tag64, int refill_units)
+bool hmac_cmp(int hmode, const bytes &key, const bytes &file, size_t pos, const bytes &tag64, int refill_units, int how)
 {
   set_refill(refill_units);
   MemFile in;
-  in.d = file;
-  FILE *fi = mf_open(&in, "rb");
-  fseek(fi, (long)pos, SEEK_SET);
+  FILE *fi = open_positioned(in, file, pos, how);
   bytes k = key;
   k.resize(16);
   hmac h;
@@ -1404,6 +1416,24 @@ void *factory_make(void *fh, bool enc, int type)
   memcpy(h->iv, f->iv, 20);
   h->m = m;
   return h;
+}
+void *factory_copy(void *fh, const uint8_t iv_for_copy[16], const uint8_t iv_for_source_afterwards[16])
+{
+  if constexpr (!std::is_copy_constructible<AesFactory>::value)
+    return NULL;
+  else
+  {
+    FacH *src = (FacH *)fh;
+    FacH *h = new FacH;
+    memcpy(h->key, src->key, 16);
+    memset(h->iv, 0, sizeof h->iv);
+    memcpy(h->iv, iv_for_copy, 16);
+    h->f = new AesFactory(*src->f); // shares the source's key buffer (the class holds a pointer): the copy is freed before the source
+    h->f->loadiv(h->iv);
+    memcpy(src->iv, iv_for_source_afterwards, 16); // the source moves on to another IV (same buffer, new content) ...
+    src->f->loadiv(src->iv);                       // ... and says so
+    return h;
+  }
 }
 void factory_free(void *fh)
 {
